@@ -69,6 +69,7 @@ def jobs(tier, seed):
                 cand = [w[k] + 1] + ([max(0, w[k] - 1)] if i == 1 else [])
             if i == 0 and w["branch_code"]:
                 cand.append(w["bank_code"] + w["branch_code"])
+                cand.append(w["bank_code"] + w["branch_code"] + 1)  # longer than the combined width: must raise
             for n in cand:
                 t = list(full)
                 t[i] = n
